@@ -99,7 +99,9 @@ TArr ==
           /\ LayerM => Report("M:array",
                  (IF e.cnt # Len(e.index) THEN {"cnt"} ELSE {})
                  \cup (IF {b : b \in {e.bits[x] : x \in 1..Len(e.bits)}} # {e.index[x] : x \in 1..Len(e.index)} THEN {"bits"} ELSE {})
-                 \cup (IF e.offsets # Offsets(e.index) THEN {"offsets"} ELSE {}))
+                 \cup (IF e.offsets # Offsets(e.index) THEN {"offsets"} ELSE {})
+                 \* the marshalled message, byte for byte (logged up to 2 KiB)
+                 \cup (IF Len(e.wire) > 0 /\ e.wire # ArrayMsg(e.index, FlattenSeq(e.elts)) THEN {"wire"} ELSE {}))
 
 \* ---- C17 --------------------------------------------------------------------
 CeilDiv(a, b) == (a + b - 1) \div b
